@@ -438,10 +438,11 @@ PROPERTIES = {
         explanation='Extension table: extension_format == table(ascii_lowercase(ext)) for every extension byte string of length 0..=7 that Path::extension may return; Stdin => None; '
                     'format names table of try_parse_format (Kani, U-EXT, strings <= 3 B; Verus U-MAIN-V, every string). Precedence and stdin-once: Verus (U-MAIN-V) proves on the verbatim main() that the i-th translate call receives '
                     'from == (-f if given, else extension_format(path_i), else None = detection), resolved afresh for every input, one call per path in iterator order, and that at most one '
-                    'of the translated inputs is standard input (a second `-` is refused before anything is read). Cli::parse_args (verbatim, same unit): the -f value reaches Cli.from exactly when it is a name of the table, for every command line.',
+                    'of the translated inputs is standard input (a second `-` is refused before anything is read). Cli::parse_args (verbatim, same unit): the -f value reaches Cli.from exactly when it is a name of the table, for every command line. '
+                    '`impl From<PathBuf> for InputPath` (verbatim, same unit): an argument is standard input exactly when it is equal (std path equality) to `-`; every other argument is that file.',
         assumptions=['std::path::Path::extension returns the last extension (stubbed by its std contract)',
-                     'stand-ins of U-MAIN-V: Cli::parse_args, InputPath::open (Stdin path <=> Input::Stdin), the InputPaths iterator (lawful), xt::Translator (ghost call log), stdio, process::exit'],
-        not_covered=['mmap / FIFO / stdin agreement with the library (InputPath::open, File / Mmap readers)', 'lexopt\'s own splitting rules', 'InputPath::from and Iterator for InputPaths (two-line bodies; unverified)']),
+                     'stand-ins of U-MAIN-V: InputPath::open (Stdin path <=> Input::Stdin), the InputPaths iterator (lawful), xt::Translator (ghost call log), lexopt token stream, std::path equality / ends_with / starts_with (uninterpreted), stdio, process::exit'],
+        not_covered=['mmap / FIFO / stdin agreement with the library (InputPath::open, File / Mmap readers)', 'lexopt\'s own splitting rules', 'Iterator for InputPaths (two-line body; assumed lawful)']),
     'C13': dict(
         explanation='Decided by Verus contracts on the verbatim Cli::parse_args and main() (U-MAIN-V): (1) parse_args returns Err EXACTLY for the command lines that the token-stream model calls invalid '
                     '(-f / -t repeated, without a value or with a name outside the table; an unknown option; a token lexopt rejects) and, for a valid one, a Cli holding the -f value, the -t value (JSON when absent) and one path per '
